@@ -43,12 +43,13 @@ Definition sx_view_result (r : view_result) : sx :=
 Definition sx_pretty (l : list pystr) : sx := sx_sorted_list sx_str l.
 
 (* all presentations of one ordered-mode run (report_repetition = False) *)
-Definition sx_c10 (verbose : nat) (r : list entry * list path) : sx :=
-  let es := fst r in
+Definition sx_c10_es (verbose : nat) (es : list entry) : sx :=
   SL [sx_pretty (pretty verbose es);
       sx_json (to_json false verbose es);
       sx_view_result (to_dict false ViewTree (Some ViewText) verbose es);
       sx_view_result (to_dict false ViewText (Some ViewTree) verbose es)].
+Definition sx_c10 (verbose : nat) (r : list entry * list path) : sx := sx_c10_es verbose (fst r).
 
 (* str() / repr() of a value, and the JSON-able value, on their own *)
-Definition sx_strs (v : value) : sx := SL [sx_str (py_str v); sx_str (py_repr v); sx_json (to_jsonable v)].
+Definition sx_strs (v : value) : sx :=
+  SL [sx_str (py_str v); sx_str (py_repr v); match to_jsonable v with None => SA "raise" | Some j => sx_jv j end].
